@@ -36,7 +36,7 @@ type CompSpec struct {
 // Probe is a harness-registered command.
 type Probe struct {
 	Name string // command name to register
-	Kind string // "log" (record invocation + caller keys), "panic", "seed" (set line/cursor from Arg), "printf" (call Shell.Printf(Arg))
+	Kind string // "log" (record invocation + caller keys), "panic", "seed" (set line/cursor from Arg), "printf" (call Shell.Printf(Arg)), "bind" (Config.Bind at run time; Arg = keymap NUL sequence NUL action, Pos 1 = macro)
 	Arg  string
 	Pos  int
 }
